@@ -55,5 +55,5 @@ META = {
     'design_ref': '5.19',
     'note': 'Trusted: TLC, the driver\'s body construction (sizes are verified before sending), Go\'s gzip writer and httptest.',
     'technique': 'TLA+ spec (WriteAPI.tla) + TLC exhaustive + replay of every request on the real write handler',
-    'quick_s': 90, 'thorough_s': 600,
+    'quick_s': 60, 'thorough_s': 340,
 }
